@@ -242,10 +242,10 @@ Lemma advance_no_nl : forall bs p, Forall (fun c => c <> NL) bs ->
   advance p bs = next_n_column p (length bs).
 Proof.
   induction bs as [|c bs IH]; intros p H.
-  - destruct p. unfold next_n_column. simpl. f_equal. lia.
+  - destruct p. reflexivity.
   - inversion H; subst. rewrite advance_cons, IH by assumption.
     unfold next_line_or_column. destruct (c =? NL)%N eqn:E; [apply N.eqb_eq in E; contradiction|].
-    unfold next_n_column. simpl. f_equal. lia.
+    unfold next_n_column. simpl. rewrite Nat.add_succ_r. reflexivity.
 Qed.
 
 (* reading bytes never moves backwards; reading at least one byte moves forward *)
@@ -368,8 +368,7 @@ Proof.
   apply N.eqb_eq in Es. apply N.eqb_eq in Ed. subst.
   rewrite (skipn_get _ _ _ Hc). replace (cl + 1) with (S cl) in Hd by lia.
   rewrite (skipn_get _ _ _ Hd). replace (cl + 2 - cl) with 2 by lia.
-  simpl firstn. destruct p as [pl pc]. unfold next_n_column, advance. simpl.
-  replace (pc + 2) with (S (S pc)) by lia. reflexivity.
+  simpl firstn. destruct p as [pl pc]. reflexivity.
 Qed.
 
 Lemma lex_block_comment_advance : forall s p d n p',
@@ -391,8 +390,7 @@ Proof.
   destruct Hnm; subst n p'. apply block_loop_advance in R. destruct R as [R1 R2].
   rewrite R2. rewrite Hs. replace m with (2 + (m - 2)) at 2 by lia.
   simpl firstn. simpl skipn. rewrite !advance_cons. destruct p as [pl pc].
-  unfold next_n_column, next_line_or_column. simpl.
-  replace (pc + 2) with (S (S pc)) by lia. reflexivity.
+  reflexivity.
 Qed.
 
 (* ---------------------------------------------------------------- tokens without line feeds *)
@@ -502,6 +500,7 @@ Lemma next_raw_locs : forall s0 off s p t es n p',
 Proof.
   intros s0 off s p t es n p' Hoff Hs Hp H. unfold next_raw in H.
   destruct (skip_ws s p) as [w p1] eqn:W.
+  replace (w + off) with (off + w) in H by lia.
   pose proof (skip_ws_le _ _ _ _ W) as Hw.
   pose proof (skip_ws_advance _ _ _ _ W) as Hp1.
   pose proof (skip_ws_spec _ _ _ _ W) as [_ Hnext].
@@ -567,7 +566,8 @@ Lemma raw_loop_locs : forall f s0 off s p ts es,
 Proof.
   induction f as [|f IH]; intros s0 off s p ts es Hoff Hs Hp H; [discriminate|].
   simpl in H. destruct (next_raw s p off) as [[[[[t e1] n] p']|]| |] eqn:R; try discriminate.
-  - destruct (raw_loop f (skipn n s) p' (off + n)) as [[ts' es']| |] eqn:R'; try discriminate.
+  - replace (n + off) with (off + n) in H by lia.
+    destruct (raw_loop f (skipn n s) p' (off + n)) as [[ts' es']| |] eqn:R'; try discriminate.
     inversion H; subst ts es; clear H.
     destruct (next_raw_locs s0 off s p t e1 n p' Hoff Hs Hp R) as [T [O1 [O2 [P' [N1 N2]]]]].
     assert (Hlen : length s = length s0 - off) by (subst s; apply skipn_length).
